@@ -841,7 +841,18 @@ class Interp:
 
     def stmt(self, st, env):
         if isinstance(st, ast.Assign):
-            val = self.ev(st.value, env)
+            try:
+                val = self.ev(st.value, env)
+            except Unsupported:
+                # a run-time flag (loop-carried scalar, only ever tested)
+                # recomputed by an expression outside the kernel language:
+                # it stays unknown, both arms of its tests are interpreted
+                if len(st.targets) == 1 and isinstance(
+                        st.targets[0], ast.Name) and isinstance(
+                            env.get(st.targets[0].id), Flag):
+                    val = Flag(st.targets[0].id)
+                else:
+                    raise
             for tg in st.targets:
                 self.assign_target(tg, val, env, st)
         elif isinstance(st, ast.AugAssign):
